@@ -129,3 +129,62 @@ K.loop(1, var="ipath", invariant=["0 <= i and i < nval and 0 <= ipath and ipath 
                                    "implies(ipath >= 1, valid_cell(nrows, ncols, idxcell_up[0]))",
                                    "implies(ipath == 0, idxcell_down[0] == -1)"],
        variant="nval - ipath")
+
+
+# ---------------------------------------------------------------------------------- c_delineate_area: functional contract (C06)
+# On success the listed cells are exactly the least set that contains every non-inlet cell draining into the outlet or into a
+# listed cell (CLOSED), each of them is there because its downstream cell is the outlet or is listed EARLIER (SOUND: so its
+# downstream chain reaches the outlet through listed, i.e. non-inlet, cells), and the outlet itself is listed when anything is.
+# The caller pre-fills the vector with -1 (grid.py does) and counts the entries >= 0.
+K = F.kernel("c_delineate_area#reach")
+K.requires(SANE_GRID)
+K.requires("nval <= 2**58 and ninlets >= 0 and ninlets <= 2**60")
+K.requires(VALIDFD + " and valid(idxinlets, ninlets)")
+K.requires("implies(nval >= 1, valid(idxcells_area, nval) and valid(buffer1, nval) and valid(buffer2, nval))")
+K.requires("separated(flowdircode, flowdir, idxinlets, idxcells_area, buffer1, buffer2)")
+K.requires(FDC_IS)
+K.requires("forall(q, 0 <= q < nval, idxcells_area[q] == -1)")
+K.assigns("idxcells_area[0:nval]", "buffer1[0:nval]", "buffer2[0:nval]")
+K.ghost("dn(c)", "int", "down(nrows, ncols, flowdir[c], c)")
+K.ghost("inl(c)", "bool", "exists(m, 0 <= m < ninlets, idxinlets[m] == c)")
+A = "idxcells_area"
+def _sound(n):
+    # four separate clauses (smaller instances for the solver); the post-condition states them as one
+    return ["forall(q, 0 <= q < %s, %s[q] != -1)" % (n, A),
+            "forall(q, 0 <= q < %s, %s[q] == idxoutlet or valid_cell(nrows, ncols, %s[q]))" % (n, A, A),
+            "forall(q, 0 <= q < %s, %s[q] == idxoutlet or not inl(%s[q]))" % (n, A, A),
+            "forall(q, 0 <= q < %s, %s[q] == idxoutlet or dn(%s[q]) == idxoutlet or exists(p, 0 <= p < q, %s[p] == dn(%s[q])))" % (n, A, A, A, A)]
+def _tail(n):
+    return "forall(q, %s <= q < nval, %s[q] == -1)" % (n, A)
+def _closed(n, pending):
+    return ("forall(c, 0 <= c < nrows*ncols, implies(not inl(c) and dn(c) >= 0 and (dn(c) == idxoutlet or exists(p, 0 <= p < %s, %s[p] == dn(c))), "
+            "exists(q, 0 <= q < %s, %s[q] == c)%s))" % (n, A, n, A, pending))
+OK0 = "result == 0"
+K.ensures("implies(%s, %s)" % (OK0, "forall(q, 0 <= q < nval, %s[q] == -1 or (%s[q] == idxoutlet or (valid_cell(nrows, ncols, %s[q]) and not inl(%s[q]) and "
+          "(dn(%s[q]) == idxoutlet or exists(p, 0 <= p < q, %s[p] == dn(%s[q]))))))" % (A, A, A, A, A, A, A)), props=["C06"])
+K.ensures("implies(%s, %s)" % (OK0, _closed("nval", "")), props=["C06"])
+K.ensures("implies(%s and exists(q, 0 <= q < nval, %s[q] != -1), exists(q, 0 <= q < nval, %s[q] == idxoutlet))" % (OK0, A, A), props=["C06"])
+K.ensures("implies(%s, forall(q, 0 <= q < nval - 1, implies(%s[q] == -1, %s[q+1] == -1)))" % (OK0, A, A), props=["C06"])
+K.loop(0, var="m", invariant=["0 <= m and m <= ninlets", "forall(q, 0 <= q < m, valid_cell(nrows, ncols, idxinlets[q]))"])
+OUT = "implies(nlayer == 0, i == 0) and implies(nlayer >= 1, exists(q, 0 <= q < i, %s[q] == idxoutlet))" % A
+def _front(buf, n):
+    return "forall(r, 0 <= r < %s, valid_cell(nrows, ncols, %s[r]) and ((nlayer == 0 and %s[r] == idxoutlet) or exists(p, 0 <= p < i, %s[p] == %s[r])))" % (n, buf, buf, A, buf)
+K.loop(1, var="nlayer", invariant=[AREA_INV, "nbuffer2 <= i + 1", "implies(nlayer >= 1, nbuffer2 >= 1)",
+                                   _tail("i")] + _sound("i") + [_front("buffer2", "nbuffer2"), OUT,
+                                   "implies(nlayer == 0, nbuffer2 == 1 and buffer2[0] == idxoutlet)",
+                                   _closed("i", " or exists(r, 0 <= r < nbuffer2, buffer2[r] == dn(c))")],
+       variant="nval - i + ite(nlayer == 0, 1, 0)")
+K.loop(2, var="l", invariant=["0 <= l and l <= nbuffer2", "forall(q, 0 <= q < l, buffer1[q] == buffer2[q])"])
+L3 = ["0 <= l and l <= nbuffer1 and nbuffer1 <= nval and 0 <= i and i <= nval - 1 and 0 <= nbuffer2 and nbuffer2 <= i and nlayer >= 0",
+      "valid_cell(nrows, ncols, idxoutlet)",
+      _tail("i")] + _sound("i") + [_front("buffer1", "nbuffer1"),
+      "forall(r, 0 <= r < nbuffer2, valid_cell(nrows, ncols, buffer2[r]) and exists(p, 0 <= p < i, %s[p] == buffer2[r]))" % A,
+      "implies(nlayer == 0, nbuffer1 == 1 and buffer1[0] == idxoutlet and i == nbuffer2) and implies(nlayer >= 1, exists(q, 0 <= q < i, %s[q] == idxoutlet))" % A]
+K.loop(3, var="l", invariant=L3 + ["i - nbuffer2 == at_loop_entry(i)",
+      _closed("i", " or exists(r, l <= r < nbuffer1, buffer1[r] == dn(c)) or exists(r, 0 <= r < nbuffer2, buffer2[r] == dn(c))")])
+# the 9 upstream slots of the current cell: slots below k are done (listed unless -1 or an inlet); the current cell stays pending
+K.loop(4, var="k", invariant=["0 <= k and k <= 9 and l < nbuffer1 and idxcell[0] == buffer1[l]"] + L3 + [
+      "i - nbuffer2 == at_loop_entry(i) - at_loop_entry(nbuffer2)",
+      "forall(p, 0 <= p < k, idxup[p] < 0 or inl(idxup[p]) or exists(q, 0 <= q < i, %s[q] == idxup[p]))" % A,
+      _closed("i", " or exists(r, l <= r < nbuffer1, buffer1[r] == dn(c)) or exists(r, 0 <= r < nbuffer2, buffer2[r] == dn(c))")])
+K.loop(5, var="m", invariant=["0 <= m and m <= ninlets", "forall(q, 0 <= q < m, idxinlets[q] != idx)"])
